@@ -193,6 +193,12 @@ partial def loop (h : IO.FS.Stream) (s : DS) : IO Unit := do
     let g : Cfg := { isClient := cli == "1", maxBody := maxb.toNat!, urlOk := fun _ => true, protoOk := fun _ => true }
     IO.println "ok"
     loop h { g, limit := lim.toNat!, pc := { st := Http.init g, cache := [] }, cur := none }
+  | ["C", cli, maxb, lim, _] =>
+    -- a fifth token ("h=0110": which responses answer a HEAD request) is request context for the reference only:
+    -- the parser has no such input (known finding HTTP-CLIENT-HEAD)
+    let g : Cfg := { isClient := cli == "1", maxBody := maxb.toNat!, urlOk := fun _ => true, protoOk := fun _ => true }
+    IO.println "ok"
+    loop h { g, limit := lim.toNat!, pc := { st := Http.init g, cache := [] }, cur := none }
   | "D" :: hx :: rest =>
     let data := unhex hx
     let badUrls := hexList ((field rest "badurl").getD "")
@@ -255,6 +261,19 @@ partial def loop (h : IO.FS.Stream) (s : DS) : IO Unit := do
       let flat (evs : List Ev) : List Ev := evs   -- body events are whole per message in both
       let ok := flat r.evs == specEvs && deliveredOf g.isClient specEvs == specDel
       IO.println s!"R err={err} cache={if err == 0 then toString cache else "?"} st={if err == 0 then toString st else "?"} nb={msgs} offs={offs} ref={ref}{if ok then "" else " spec-mismatch"}"
+    loop h s
+  -- hclient: the bytes a server sent in reply to a pipelined request script, through the client parser and the
+  -- client processor; the responses delivered before the first parse error
+  | ["C", "client"] => IO.println "ok"; loop h s
+  | ["K", _, _, rawf] =>
+    let raw := unhex ((rawf.drop 4).toString)
+    let g : Cfg := { isClient := true, maxBody := 0, urlOk := fun _ => true, protoOk := fun _ => true }
+    let r := feedAllL (machine g) 0 (Http.init g) [] [raw] []
+    let outs := match procRun true none r.evs [] with
+      | some (_, out) => out.filterMap fun | .resp p => some s!"{p.code}:{p.contentLength}:{p.body.length}:{hexNat (fnv p.body).toNat}" | _ => none
+      | none => ["proc-nil-deref"]
+    let err := match r.fin with | .inr _ => 1 | .inl _ => 0
+    IO.println s!"R client got={String.intercalate "," outs} err={err}"
     loop h s
   -- hbody: the BodyReader model (Model/HttpBody.lean)
   | ["C", "body", mx] => IO.println "ok"; loop h { s with br := {}, brMax := mx.toNat! }
